@@ -186,6 +186,22 @@ def _refute_monotone(val, order):
     tuples = sorted({(a, b, c, d) for a in majors for b in smalls for c in smalls for d in smalls + [None]},
                     key=lambda t: (t[0], t[1], t[2], t[3] or 0, t[3] is not None))
     prev = None
+    # the derivation must not depend on which *other* entries the VERSION file carries (an explicit version string next to the fields)
+    others = [{}, {"APP_ROOT_VERSION": "7.7.7"}, {"NORDIC_TOP_VERSION": "1.1.1", "SCFW_VERSION": "2.2.2"}]
+    for extra_ in others[1:]:
+        small = [t for t in tuples if t[0] in (0, 1, 255, 256) and t[1] in (0, 255) and t[2] in (0, 255)]
+        p2 = None
+        for t in small:
+            env = {ver: {**{k: str(v) for k, v in zip(order, t) if v is not None}, **extra_}}
+            try:
+                v = teval(val, env)
+                v = int(v) if isinstance(v, str) else v
+            except (Unknown, Raised, ValueError, TypeError):
+                return "unknown"
+            same_key = p2 is not None and (p2[0][:3], p2[0][3] or 0) == (t[:3], t[3] or 0)
+            if p2 is not None and not (p2[1] < v) and not (same_key and p2[1] == v):
+                return p2[0], t, f"{p2[1]} (with {extra_})", v
+            p2 = (t, v)
     for t in tuples:
         env = {ver: {k: str(v) for k, v in zip(order, t) if v is not None}}
         try:
